@@ -590,28 +590,42 @@ def spawnForExport (o : ExportOpts) (m : VMap) : Ent :=
     keys := entSetKey (entSetKey m.spawn.keys (lit "mapversion") (showInt (exportedVer o m)))
       (lit "classname") (lit "worldspawn") }
 
+def verKids (o : ExportOpts) (m : VMap) : List KV := [
+  kInt "editorversion" m.hammerVer, kInt "editorbuild" m.hammerBuild,
+  kInt "mapversion" (exportedVer o m), kInt "formatversion" m.formatVer, kBool "prefab" m.prefab]
+
+def viewKids (m : VMap) : List KV :=
+  [kBool "bSnapToGrid" m.snap, kBool "bShowGrid" m.grid, kBool "bShowLogicalGrid" m.logic,
+   kInt "nGridSpacing" m.spacing, kBool "bShow3DGrid" m.grid3d] ++
+  ((match m.instVis with
+    | some v => [kInt "nInstanceVisibility" v]
+    | none => []) ++
+   (match m.views with
+    | some vs => [kBlock "views" (exportViews viewTitles vs)]
+    | none => []))
+
+def camKids (m : VMap) : List KV :=
+  kInt "activecamera" (if m.cams.isEmpty then -1 else m.activeCam) :: m.cams.map exportCam
+
+def cordonKids (m : VMap) : List KV :=
+  if m.cordons.isEmpty then [kLeaf "active" ['0']]
+  else kBool "active" m.cordonOn :: m.cordons.map exportCordon
+
+/-- the root blocks in file order -/
+def rootOf (minimal hasQuick : Bool) (verK visK viewK : List KV) (world : KV) (ents : List KV)
+    (camK cordK quickK : List KV) : List KV :=
+  [kBlock "versioninfo" verK, kBlock "visgroups" visK] ++
+  ((if minimal then [] else [kBlock "viewsettings" viewK]) ++
+  ([world] ++
+  (ents ++
+  ((if minimal then [] else [kBlock "cameras" camK, kBlock "cordons" cordK]) ++
+  (if hasQuick then [kBlock "quickhide" quickK] else [])))))
+
 def exportTree (o : ExportOpts) (m : VMap) : List KV :=
-  [kBlock "versioninfo" [
-     kInt "editorversion" m.hammerVer, kInt "editorbuild" m.hammerBuild,
-     kInt "mapversion" (exportedVer o m), kInt "formatversion" m.formatVer, kBool "prefab" m.prefab],
-   kBlock "visgroups" (m.vis.map exportVis)] ++
-  (if o.minimal then [] else
-    [kBlock "viewsettings" ([
-      kBool "bSnapToGrid" m.snap, kBool "bShowGrid" m.grid, kBool "bShowLogicalGrid" m.logic,
-      kInt "nGridSpacing" m.spacing, kBool "bShow3DGrid" m.grid3d] ++
-      (match m.instVis with
-       | some v => [kInt "nInstanceVisibility" v]
-       | none => []) ++
-      (match m.views with
-       | some vs => [kBlock "views" (exportViews viewTitles vs)]
-       | none => []))]) ++
-  [exportEnt o.multiblend true m.groups (spawnForExport o m)] ++
-  m.ents.map (exportEnt o.multiblend false []) ++
-  (if o.minimal then [] else
-    [kBlock "cameras" (kInt "activecamera" (if m.cams.isEmpty then -1 else m.activeCam) :: m.cams.map exportCam),
-     kBlock "cordons" (if m.cordons.isEmpty then [kLeaf "active" ['0']]
-                       else kBool "active" m.cordonOn :: m.cordons.map exportCordon)]) ++
-  (if m.quickhide > 0 then [kBlock "quickhide" [kInt "count" m.quickhide]] else [])
+  rootOf o.minimal (decide (m.quickhide > 0)) (verKids o m) (m.vis.map exportVis) (viewKids m)
+    (exportEnt o.multiblend true m.groups (spawnForExport o m))
+    (m.ents.map (exportEnt o.multiblend false []))
+    (camKids m) (cordonKids m) [kInt "count" m.quickhide]
 
 /-! ## lookups (`Keyvalues` accessors) -/
 
@@ -714,49 +728,67 @@ where
 
 def parseVis (k : KV) : Except Err Vis := parseVisAux k
 
-/-- `Strata2DViewport.from_vector` on tokens. -/
+def isBig (t : Str) : Bool := t == lit "65536" || t == lit "-65536"
+
+/-- the single axis whose coordinate satisfies `p` (none: no axis; error: more than one). -/
+def pickAxis (p : Str → Bool) (pos : V3) : Except Err (Option Nat) :=
+  match p pos.x, p pos.y, p pos.z with
+  | true, false, false => .ok (some 0)
+  | false, true, false => .ok (some 1)
+  | false, false, true => .ok (some 2)
+  | false, false, false => .ok none
+  | _, _, _ => .error .viewAxis
+
+def mkView2 (a : Nat) (pos : V3) (zoom : Str) : View :=
+  if a == 0 then .v2 0 pos.y pos.z zoom else if a == 1 then .v2 1 pos.x pos.z zoom else .v2 2 pos.x pos.y zoom
+
+/-- `Strata2DViewport.from_vector` on tokens: the axis holding ±65536 first, then a zero. -/
 def viewFromVector (pos : V3) (zoom : Str) : Except Err View :=
-  let big (t : Str) : Bool := t == lit "65536" || t == lit "-65536"
-  let pick (p : Str → Bool) : Except Err (Option Nat) :=
-    match p pos.x, p pos.y, p pos.z with
-    | true, false, false => .ok (some 0)
-    | false, true, false => .ok (some 1)
-    | false, false, true => .ok (some 2)
-    | false, false, false => .ok none
-    | _, _, _ => .error .viewAxis
-  let mk (a : Nat) : View :=
-    if a == 0 then .v2 0 pos.y pos.z zoom else if a == 1 then .v2 1 pos.x pos.z zoom else .v2 2 pos.x pos.y zoom
-  match pick big with
+  match pickAxis isBig pos with
   | .error e => .error e
-  | .ok (some a) => .ok (mk a)
+  | .ok (some a) => .ok (mkView2 a pos zoom)
   | .ok none =>
-    match pick isZeroTok with
+    match pickAxis isZeroTok pos with
     | .error e => .error e
-    | .ok (some a) => .ok (mk a)
+    | .ok (some a) => .ok (mkView2 a pos zoom)
     | .ok none => .error .viewAxis
 
-def parseView (key : String) (is0 : Bool) (default2d : Nat) (views : List KV) : Except Err View := do
-  let sub ← match findKey key views with
-    | some k => blockKids k
-    | none => pure []
-  let pos := getV3 "position" v3zero sub
+def viewSub (key : String) (views : List KV) : Except Err (List KV) :=
+  match findKey key views with
+  | some k => blockKids k
+  | none => .ok []
+
+def parseViewKids (is0 : Bool) (default2d : Nat) (sub : List KV) : Except Err View :=
   if getBool "3d" is0 sub then
-    pure (.v3 pos (parseV3 v3zero ((getLeaf "angle" sub).getD (lit "[0 0 0]"))))
-  else
-    let zoom := getFloat "zoom" ['1'] sub
-    if pos.toks.all isZeroTok then pure (.v2 default2d ['0'] ['0'] zoom)
-    else viewFromVector pos zoom
+    .ok (.v3 (getV3 "position" v3zero sub) (parseV3 v3zero ((getLeaf "angle" sub).getD (lit "[0 0 0]"))))
+  else if (getV3 "position" v3zero sub).toks.all isZeroTok then
+    .ok (.v2 default2d ['0'] ['0'] (getFloat "zoom" ['1'] sub))
+  else viewFromVector (getV3 "position" v3zero sub) (getFloat "zoom" ['1'] sub)
+
+def parseView (key : String) (is0 : Bool) (default2d : Nat) (views : List KV) : Except Err View :=
+  match viewSub key views with
+  | .error e => .error e
+  | .ok sub => parseViewKids is0 default2d sub
 
 def parseViews (viewOpt : List KV) : Except Err (Option (List View)) :=
   match findKey "views" viewOpt with
-  | none => pure none
-  | some k => do
-    let vs ← blockKids k
-    let a ← parseView "v0" true 0 vs
-    let b ← parseView "v1" false 0 vs
-    let c ← parseView "v2" false 1 vs
-    let d ← parseView "v3" false 2 vs
-    pure (some [a, b, c, d])
+  | none => .ok none
+  | some k =>
+    match blockKids k with
+    | .error e => .error e
+    | .ok vs =>
+      match parseView "v0" true 0 vs with
+      | .error e => .error e
+      | .ok a =>
+        match parseView "v1" false 0 vs with
+        | .error e => .error e
+        | .ok b =>
+          match parseView "v2" false 1 vs with
+          | .error e => .error e
+          | .ok c =>
+            match parseView "v3" false 2 vs with
+            | .error e => .error e
+            | .ok d => .ok (some [a, b, c, d])
 
 def lstripC (c : Char) (s : Str) : Str := s.dropWhile (· == c)
 def rstripC (c : Char) (s : Str) : Str := (s.reverse.dropWhile (· == c)).reverse
